@@ -398,6 +398,18 @@ func oracle(ops, outs []string) *corr.Violation {
 			}
 			u.used.Add(u.used, a)
 			g.used.Add(g.used, a)
+			// how far the known defect (limits checked with PourAmount, t.Value poured) can overshoot — anything beyond is something else
+			over := c.pour
+			if c.maxPour-1 > over {
+				over = c.maxPour - 1
+			}
+			slack := new(big.Int).SetUint64(over - c.pour)
+			if u.used.Cmp(new(big.Int).Add(new(big.Int).SetUint64(c.periodic), slack)) > 0 {
+				return mk("periodic-limit-exceeded-beyond-one-request", fmt.Sprintf("op %d %q: client %d has been poured %s since %d, periodic limit %d", i, op, cl, u.used, u.start, c.periodic))
+			}
+			if g.used.Cmp(new(big.Int).Add(new(big.Int).SetUint64(c.global), slack)) > 0 {
+				return mk("global-limit-exceeded-beyond-one-request", fmt.Sprintf("op %d %q: %s poured to all clients since %d, global limit %d", i, op, g.used, g.start, c.global))
+			}
 			if u.used.Cmp(new(big.Int).SetUint64(c.periodic)) > 0 {
 				return mk("periodic-limit-exceeded", fmt.Sprintf("op %d %q: client %d has been poured %s since %d (window %v), periodic limit %d", i, op, cl, u.used, u.start, time.Duration(c.ir), c.periodic))
 			}
